@@ -6,8 +6,12 @@ A skeleton is a nested tuple tree over ONE variable `v`:
     simple:    ("asg",) ("use",) ("break",) ("continue",) ("return",) ("raise",) ("boom",)
                ("gdef",) ("gcall",)      nested `def g(): use(v)` / call of it
                ("hdef",) ("hcall",)      nested `def h(): nonlocal v; v = <lit>` / call of it
-    compound:  ("if", body, orelse)  ("while", body, orelse)  ("wtrue", body)  ("for", body, orelse)
+    compound:  ("if", body, orelse)  ("while", body, orelse)  ("wtrue", body)  ("for", body, orelse[, iterable kind])
                ("try", body, handler|None, orelse, finalbody)   ("with", "S"|"N", body)
+
+The iterable of a `for` is `it()` (a call returning a list of unknown length) unless a kind from ITER_MEMBERS is
+given: a literal of statically known length written in the header, or a name bound in the two arms of an
+`if c():` right before the loop to two such members (the iterable is then inferred as their union).
 
 plus a mode ("local" | "global": the function starts with `global v`, the module has `v = 0`).
 Literals are numbered 1.. in pre-order over assignments (asg and hdef); use sites 0.. in pre-order over
@@ -17,6 +21,28 @@ from __future__ import annotations
 
 import random
 from functools import lru_cache
+from itertools import chain
+
+# iterable kind -> its members: "2"/"1"/"0" = literal tuple with that many elements, "?" = it() (unknown length)
+ITER_MEMBERS = {"T": ("2",), "Z": ("0",), "S": ("s",), "TP": ("2", "?"), "ZT": ("0", "2"),
+                "ZP": ("0", "?"), "TT": ("2", "1")}
+MEMBER_SRC = {"2": "(7, 8)", "1": "(9,)", "0": "()", "?": "it()", "s": '"ab"'}
+MEMBER_LEN = {"2": 2, "1": 1, "0": 0, "s": 2}  # "?" is absent: unknown
+
+
+def iter_kind(s):
+    """Iterable kind of a `for` statement (None = the default `it()` call in the header)."""
+    return s[3] if len(s) > 3 else None
+
+
+def iter_names(body):
+    """{path of a `for` whose iterable is a union: name of the variable that holds it}."""
+    out = {}
+    for p, s in walk(body):
+        if s[0] == "for" and iter_kind(s) and len(ITER_MEMBERS[iter_kind(s)]) > 1:
+            out[p] = f"w{len(out) + 1}"
+    return out
+
 
 SIMPLE = ("asg", "use", "break", "continue", "return", "raise", "boom", "gdef", "gcall", "hdef", "hcall")
 TERMINATORS = ("break", "continue", "return", "raise")
@@ -53,7 +79,7 @@ def rebuild(s, new_blocks):
     k = s[0]
     nb = [tuple(b) for b in new_blocks]
     if k in ("if", "while", "for"):
-        return (k, nb[0], nb[1])
+        return (k, nb[0], nb[1]) + tuple(s[3:])
     if k == "wtrue":
         return (k, nb[0])
     if k == "try":
@@ -80,6 +106,18 @@ def size(block) -> int:
 
 def depth(block) -> int:
     return max((len(p) for p, _ in walk(block)), default=0)
+
+
+def loop_nesting(block) -> int:
+    """Largest number of loop bodies around a statement."""
+    return max((sum(1 for r, _ in p if r in ("while-body", "for-body", "wtrue-body")) for p, _ in walk(block)),
+               default=0)
+
+
+def nest_shape(block) -> str:
+    """Constructs along the deepest path (evidence histogram), e.g. if>wtrue>for."""
+    p = max((p for p, _ in walk(block)), key=len)
+    return ">".join(r.split("-")[0] + ("-else" if r.endswith("-else") else "") for r, _ in p[1:])
 
 
 def number(block):
@@ -163,6 +201,8 @@ def valid(mode: str, body) -> bool:
             if not _in_loop(p):
                 return False
         elif k == "wtrue" and not has_bound_break(s[1]):
+            return False
+        elif k == "for" and len(s) > 3 and (len(s) != 4 or s[3] not in ITER_MEMBERS):
             return False
         for r, b in blocks_of(s):
             if not b and r not in ("if-else", "while-else", "for-else", "except", "try-else", "finally"):
@@ -254,6 +294,17 @@ def render_plain(mode, body, name="f", use="reveal_type(v)"):
     site_line = {}
     if mode == "global":
         lines.append("    global v")
+    wname = iter_names(body)
+
+    def for_head(s, p, pad):
+        kind = iter_kind(s)
+        if kind is None:
+            return "for _ in it():"
+        if p in wname:  # bound right before the loop, so that every entry of the loop is a fresh choice
+            a, b = (MEMBER_SRC[m] for m in ITER_MEMBERS[kind])
+            lines.extend([f"{pad}if c():", f"{pad}    {wname[p]} = {a}", f"{pad}else:", f"{pad}    {wname[p]} = {b}"])
+            return f"for _ in {wname[p]}:"
+        return f"for _ in {MEMBER_SRC[ITER_MEMBERS[kind][0]]}:"
 
     def block(b, role, path, ind):
         pad = "    " * ind
@@ -291,7 +342,7 @@ def render_plain(mode, body, name="f", use="reveal_type(v)"):
                     lines.append(pad + "else:")
                     block(s[2], "if-else", p, ind + 1)
             elif k in ("while", "for", "wtrue"):
-                head = {"while": "while c():", "for": "for _ in it():", "wtrue": "while True:"}[k]
+                head = for_head(s, p, pad) if k == "for" else {"while": "while c():", "wtrue": "while True:"}[k]
                 lines.append(pad + head)
                 block(s[1], f"{k}-body", p, ind + 1)
                 if k != "wtrue" and s[2]:
@@ -333,6 +384,7 @@ def render_instr(mode, body, name="f"):
     if mode == "global":
         lines.append("    global v")
     counter = [0]
+    wname = iter_names(body)
 
     def use_lines(pad, site, n):
         return [pad + "try:", pad + "    _t = v", pad + "except NameError:", pad + "    _t = None",
@@ -381,8 +433,13 @@ def render_instr(mode, body, name="f"):
                     lines.extend([f"{pad}{cell} = [0]", f"{pad}while D.loop({cell}, {n}):"])
                 elif k == "wtrue":
                     lines.extend([f"{pad}{cell} = [0]", f"{pad}while D.wtrue({cell}):"])
-                else:
+                elif iter_kind(s) is None:
                     lines.append(f"{pad}for _ in D.it({n}):")
+                elif p in wname:  # `if c(): w = <member> else: w = <member>` right before the loop
+                    lines.append(f"{pad}{wname[p]} = D.pick({ITER_MEMBERS[iter_kind(s)]!r}, {n})")
+                    lines.append(f"{pad}for _ in D.itm({wname[p]}):")
+                else:  # no call in the header: nothing raises there
+                    lines.append(f"{pad}for _ in D.itm({ITER_MEMBERS[iter_kind(s)][0]!r}):")
                 block(s[1], f"{k}-body", p, ind + 1, prot, False)
                 if k != "wtrue" and s[2]:
                     lines.append(pad + "else:")
@@ -531,6 +588,28 @@ class Oracle:
                 return
             yield 0
 
+    def pick(self, members, n):
+        """Which member of a union iterable is bound (the c() that decides may raise).  Liberal space: every
+        iterable is of unknown length, and the failpoint before the statement already is that raise."""
+        if self.liberal:
+            return "?"
+        ch = self.q(len(members) + n)
+        if ch >= len(members):
+            self._raise(ch - len(members))
+        return members[ch]
+
+    def itm(self, member):
+        """Iterable that is not a call: a literal of known length in the strict space, unknown length otherwise."""
+        if self.liberal or member == "?":
+            return self._gen(self.q(2) == 1)
+        return self._fixed(MEMBER_LEN[member])
+
+    def _fixed(self, k):
+        for _ in range(k):
+            if self.dead:
+                return
+            yield 0
+
     def cm(self, kind, n):
         self.boom(n)
         return _CMS if kind == "S" else _CMN
@@ -662,8 +741,34 @@ def cfg_reaching(mode, body, liberal: bool, stop_at_unbound: bool):
             call(st, o)
             merge(o, block(s[1], "if-body", p, st))
             merge(o, block(s[2], "if-else", p, st))
+        elif k == "for" and iter_kind(s) is not None and not liberal:
+            # strict: a literal iterable runs exactly len() iterations (unless left early); a union is any member
+            if len(ITER_MEMBERS[iter_kind(s)]) > 1:
+                call(st, o)  # the c() that picks the member
+            for m in ITER_MEMBERS[iter_kind(s)]:
+                if m == "?":
+                    head = st
+                    while True:
+                        bo = block(s[1], "for-body", p, head)
+                        new = head | bo["n"] | bo["c"]
+                        if new == head:
+                            break
+                        head = new
+                    merge(o, bo, skip=("n", "b", "c"))
+                    o["n"] |= bo["b"]
+                else:
+                    head = st
+                    for _ in range(MEMBER_LEN[m]):
+                        if not head:
+                            break
+                        bo = block(s[1], "for-body", p, head)
+                        merge(o, bo, skip=("n", "b", "c"))
+                        o["n"] |= bo["b"]
+                        head = bo["n"] | bo["c"]
+                if head:
+                    merge(o, block(s[2], "for-else", p, head))
         elif k in ("while", "for", "wtrue"):
-            if k == "for":
+            if k == "for" and iter_kind(s) is None:
                 call(st, o)  # it()
             head = st
             while True:
@@ -750,13 +855,18 @@ def _splits(n, k, mins):
 class Gen:
     """Exhaustive enumeration of junk-free blocks with exactly n statements."""
 
-    def __init__(self, mode: str, max_depth: int, nested: bool):
+    def __init__(self, mode: str, max_depth: int, nested: bool, simples=None, forms=None):
         self.mode = mode
         self.max_depth = max_depth
         self.nested = nested and mode == "local"
+        self.simples = simples  # restricted vocabulary (None = everything)
+        self.forms = forms or COMPOUND_FORMS
         self._memo = {}
 
     def simple_stmts(self, in_loop, prot, top, is_last, lvl):
+        if self.simples is not None:
+            return [s for s in Gen.simple_stmts(Gen(self.mode, self.max_depth, self.nested), in_loop, prot, top,
+                                                is_last, lvl) if s[0] in self.simples]
         out = [("asg",), ("use",)]
         if in_loop:
             out += [("break",), ("continue",)]
@@ -780,7 +890,7 @@ class Gen:
         elif lvl < self.max_depth:
             m = n - 1
             nl = lvl + 1
-            for form in COMPOUND_FORMS:
+            for form in self.forms:
                 k = form[0]
                 if k == "if":
                     for a, b in _splits(m, 2, (1, form[2])):
@@ -967,3 +1077,138 @@ def random_skeleton(rng: random.Random, n_stmts: int, max_depth: int):
     if not valid(mode, body) or not junk_free(mode, body):
         return None
     return mode, body
+
+
+# ---------------------------------------------------------------------------
+# targeted families beyond the exhaustive space
+
+
+def set_iter_kind(body, path, kind):
+    """The same skeleton with the iterable kind of the `for` at `path` replaced (None = default)."""
+
+    def go(block, d):
+        r, i = path[d]
+        s = block[i]
+        if d == len(path) - 1:
+            ns = s[:3] + ((kind,) if kind else ())
+        else:
+            nr = path[d + 1][0]
+            ns = rebuild(s, [go(b, d + 1) if rr == nr else b for rr, b in blocks_of(s)])
+        return tuple(block[:i]) + (ns,) + tuple(block[i + 1:])
+
+    return go(tuple(body), 0)
+
+
+ITER_SIMPLES = ("asg", "use", "break", "continue", "return")
+ITER_FORMS = (("if", 1, 0), ("if", 1, 1), ("for", 1, 0), ("for", 1, 1), ("while", 1, 0), ("wtrue", 1),
+              ("try", "x"), ("try", "f"))
+
+
+def iter_family(max_all: int = 4, max_core: int = 5):
+    """Iterable of the `for` as part of the skeleton.  Every junk-free local-mode skeleton with <= max_all
+    statements (full vocabulary), and every one with <= max_core statements over the core vocabulary
+    (ITER_SIMPLES / ITER_FORMS), that contains a `for`; each `for` in turn gets each kind of ITER_MEMBERS."""
+    seen = set()
+    for n in range(2, max_core + 1):
+        gens = []
+        if n <= max_all:
+            gens.append(Gen("local", 3, nested=True))
+        else:
+            gens.append(Gen("local", 3, nested=False, simples=ITER_SIMPLES, forms=ITER_FORMS))
+        for g in gens:
+            for body in g.blocks(n, 0, False, False, True):
+                fors = [p for p, s in walk(body) if s[0] == "for"]
+                if not fors or not junk_free("local", body):
+                    continue
+                for p in fors:
+                    for kind in ITER_MEMBERS:
+                        b2 = set_iter_kind(body, p, kind)
+                        if b2 not in seen:
+                            seen.add(b2)
+                            yield "local", b2
+
+
+_LEAF = (("asg",), ("use",), ("break",), ("continue",))
+
+
+def _leaf_blocks(n, in_loop):
+    """Junk-free blocks of exactly n simple statements over asg/use/break/continue."""
+    if n == 0:
+        return [()]
+    out = []
+    for rest in _leaf_blocks(n - 1, in_loop):
+        for s in _LEAF:
+            if s[0] in ("break", "continue") and (not in_loop or rest):
+                continue  # only as the last statement (blocks are built back to front)
+            if rest and s[0] == rest[0][0]:
+                continue  # repeated use / dead store
+            out.append((s,) + rest)
+    return out
+
+
+def nest_family(max_leaves: int = 3):
+    """Loop nests beyond the depth bound of the exhaustive part: an inner for/while (body and else made of
+    asg/use/break/continue, so a break/continue in the inner else acts on the OUTER loop) inside the body of a
+    `while True` / while / for (optionally one simple statement before and after the inner loop, and in the
+    outer else), the outer loop bare or in an arm of if / if-else / try-except / try-finally / suppressing with /
+    another loop, optionally an assignment before and a use after; <= max_leaves simple statements in all
+    (one more when the outer loop is `while True`, which must contain a break).
+    Only skeletons outside the exhaustive space (> 5 statements or nesting > 3) are produced."""
+    seen = set()
+
+    def outer_loops(max_leaves, outers):
+        for inner in ("for", "while"):
+            for nb in range(1, max_leaves + 1):
+                for ne in range(0, max_leaves - nb + 1):
+                    for B in _leaf_blocks(nb, True):
+                        if B[-1][0] == "continue":
+                            continue
+                        for EB in _leaf_blocks(ne, True):
+                            il = (inner, B, EB)
+                            r1 = max_leaves - nb - ne
+                            for pre in [()] + ([(("asg",),), (("use",),)] if r1 else []):
+                                r2 = r1 - len(pre)
+                                posts = [()]
+                                if r2 and completes(il):
+                                    posts += [b for b in _leaf_blocks(1, True) if b[0][0] != "continue"]
+                                for post in posts:
+                                    r3 = r2 - len(post)
+                                    ob = pre + (il,) + post
+                                    if "wtrue" in outers:
+                                        yield ("wtrue", ob), r3
+                                    for outer in ("while", "for"):
+                                        if outer not in outers:
+                                            continue
+                                        yield (outer, ob, ()), r3
+                                        if r3:
+                                            yield (outer, ob, (("asg",),)), r3 - 1
+                                            yield (outer, ob, (("use",),)), r3 - 1
+
+    def wrapped(ol, r):
+        yield (ol,), r
+        yield (("if", (ol,), ()),), r
+        yield (("try", (ol,), (), (), ()),), r
+        yield (("with", "S", (ol,)),), r
+        yield (("while", (ol,), ()),), r
+        yield (("for", (ol,), ()),), r
+        if r:
+            for o in ((("asg",),), (("use",),)):
+                yield (("if", (ol,), o),), r - 1
+                yield (("if", o, (ol,)),), r - 1
+                yield (("try", (ol,), o, (), ()),), r - 1
+                yield (("try", (ol,), None, (), o),), r - 1
+
+    # the break a `while True` must have takes one of its simple statements: it gets one more
+    for ol, r in chain(outer_loops(max_leaves, ("while", "for")), outer_loops(max_leaves + 1, ("wtrue",))):
+        if ol[0] == "wtrue" and not has_bound_break(ol[1]):
+            continue
+        for w, r2 in wrapped(ol, r):
+            for pf in [()] + ([(("asg",),)] if r2 else []):
+                for sf in [()] + ([(("use",),)] if r2 - len(pf) else []):
+                    body = pf + w + sf
+                    if body in seen or (size(body) <= 5 and depth(body) <= 3):
+                        continue
+                    if not valid("local", body) or not tidy(body) or not junk_free("local", body):
+                        continue
+                    seen.add(body)
+                    yield "local", body
